@@ -242,6 +242,142 @@ func finishLife(c *Case, ts []tstep, kOf map[int]int64) *Case {
 	return c
 }
 
+
+// ---------------------------------------------------------------------------------------
+// C11 variant "displace": sessions ended by a newer session with the same client identifier
+
+func genC11Displace(r *Rand, tier, profile string) *Case {
+	c := &Case{Profile: "displace", Knobs: map[string]int64{}}
+	nodes := r.PickInt([]int{1, 2, 2, 3})
+	c.Knobs["nodes"] = int64(nodes)
+	gossipKnobs(r, c)
+	var ts []tstep
+	t := int64(1)
+	ts = append(ts, tstep{t, Step{K: "connect", C: 0, N: 0, S: "witness", U: "u", T: "p", I: 3000}})
+	ts = append(ts, tstep{20, Step{K: "sub", C: 0, L: []string{"w/#"}, QL: []int{0}, I: 1}})
+	chain := r.Range(2, 3)
+	for i := 1; i <= chain; i++ {
+		t += int64(r.Range(200, 2500))
+		k := int64(r.PickInt([]int{5, 10, 30}))
+		ts = append(ts, tstep{t, Step{K: "connect", C: i, N: r.Intn(nodes), S: "dup", U: "u", T: "p", I: k, G: i > 1}})
+		if r.Bool(0.85) {
+			ts = append(ts, tstep{t + int64(r.Range(5, 200)), Step{K: "sub", C: i, L: []string{fmt.Sprintf("d/%d/#", i), "d/all"}, QL: []int{r.Intn(2), 0}, I: 1}})
+		}
+		// how the displaced session learns of it (or dies on its own) later
+		if i < chain {
+			at := t + int64(r.Range(2600, 9000))
+			switch r.Intn(5) {
+			case 0:
+				ts = append(ts, tstep{at, Step{K: "pkt", C: i, S: "disconnect"}})
+			case 1:
+				ts = append(ts, tstep{at, Step{K: "cut", C: i}})
+			case 2:
+				ts = append(ts, tstep{at, Step{K: "sub", C: i, L: []string{fmt.Sprintf("d/%d/more", i)}, QL: []int{0}, I: 7}})
+			default: // its ordinary keep-alive traffic (filled in by finishLife) will do
+			}
+		}
+	}
+	t += 9500
+	ts = append(ts, tstep{t, Step{K: "settle"}})
+	t += settleDur + 20
+	// every node now holds every record: the next keep-alive exchange tells a displaced session
+	for i := 1; i <= chain; i++ {
+		ts = append(ts, tstep{t + int64(i), Step{K: "pkt", C: i, S: "pingreq"}})
+	}
+	t += 4000
+	ts = append(ts, tstep{t, Step{K: "settle"}})
+	t += settleDur + 20
+	for i := 1; i <= chain; i++ {
+		ts = append(ts, tstep{t, Step{K: "pub", C: 0, T: fmt.Sprintf("d/%d/z", i), S: fmt.Sprintf("late%d", i), Q: 0}})
+		t += 15
+	}
+	ts = append(ts, tstep{t, Step{K: "pub", C: 0, T: "d/all", S: "lateall", Q: 0}})
+	ts = append(ts, tstep{t + 300, Step{K: "pkt", C: chain, S: "pingreq"}})
+	kOf := map[int]int64{}
+	for _, x := range ts {
+		if x.s.K == "connect" && x.s.C > 0 {
+			kOf[x.s.C] = x.s.I
+		}
+	}
+	return finishLife(c, ts, kOf)
+}
+
+// judgeDisplaced: a displaced session that has ended (closed by the broker at its keep-alive
+// exchange, or by its own DISCONNECT or link loss) leaves no record and no subscription on any
+// node and is written nothing more; the other sessions are judged as in the main variant.
+func judgeDisplaced(w *world) {
+	judgeLifecycleOpts("C11", true)(w)
+}
+
+func (w *world) judgeDisplacedSessions(prop string, all []*simClient, final settleRec) map[string]bool {
+	endMs := w.nowMs()
+	inTransit := map[string]bool{}
+	for _, cl := range all {
+		if cl.connack == nil || cl.connack.RC != 0 || cl.sid == "" {
+			continue
+		}
+		displaced := false
+		for _, other := range all {
+			if other != cl && other.opts.ClientID == cl.opts.ClientID && other.connectAt > cl.connectAt && other.mount == cl.mount && other.connack != nil && other.connack.RC == 0 {
+				displaced = true
+			}
+		}
+		if !displaced {
+			continue
+		}
+		f := w.lifeFactsOf(cl)
+		endedAt, how := int64(-1), ""
+		switch {
+		case f.cause != "" && f.cause != "silence":
+			endedAt, how = f.causeAt, f.cause
+		case cl.sawClose:
+			endedAt, how = cl.closeAt, "closed-by-broker"
+		}
+		if cl.sawClose && (endedAt < 0 || cl.closeAt < endedAt) {
+			endedAt, how = cl.closeAt, "closed-by-broker"
+		}
+		if endedAt < 0 {
+			// still connected: it has not had a keep-alive exchange on a host that knew its successor
+			inTransit[cl.sid] = true
+			w.o.probe("displaced_still_connected_at_end")
+			continue
+		}
+		if endedAt+2000 > final.AtMs-settleDur {
+			inTransit[cl.sid] = true
+			w.o.probe("end_too_close_to_final_settle")
+			continue
+		}
+		w.o.probe("displaced_ended_" + how)
+		attrs := map[string]string{"cause": "displaced", "how": how}
+		for ni, l := range final.Listings {
+			for _, x := range l {
+				if strings.HasPrefix(x, "S|"+cl.sid+"|") {
+					w.o.violate(prop, "session-record-remains", f.causeStep, endMs, attrs,
+						"client %d's session %s was displaced and ended (%s at %dms) but node %d still lists %s after the final settle", cl.idx, cl.sid, how, endedAt, ni, x)
+					return inTransit
+				}
+			}
+			if subs := subsOfSession(l, cl.sid); len(subs) > 0 {
+				w.o.violate(prop, "subscription-remains", f.causeStep, endMs, attrs,
+					"client %d's session %s was displaced and ended (%s at %dms) but node %d still lists its subscriptions %v", cl.idx, cl.sid, how, endedAt, ni, subs)
+				return inTransit
+			}
+		}
+		for _, ob := range w.obs {
+			if ob.Rx && ob.Client == cl.idx && ob.Epoch == cl.epoch && ob.P.Type == tPUBLISH && ob.AtMs > endedAt+2000 {
+				w.o.violate(prop, "written-after-end", f.causeStep, endMs, attrs,
+					"client %d's session was displaced and ended (%s at %dms); %s was written to its connection at %dms", cl.idx, how, endedAt, ob.P, ob.AtMs)
+				break
+			}
+		}
+	}
+	return inTransit
+}
+
+func runC11Displace(t *testing.T, c *Case) *Outcome {
+	return runE1(t, c, profileHooks{judge: judgeDisplaced})
+}
+
 func runC11(t *testing.T, c *Case) *Outcome {
 	return runE1(t, c, profileHooks{judge: judgeLifecycle("C11")})
 }
@@ -341,7 +477,9 @@ func epochAtStep(w *world, c, si int) int {
 	return e
 }
 
-func judgeLifecycle(prop string) func(w *world) {
+func judgeLifecycle(prop string) func(w *world) { return judgeLifecycleOpts(prop, false) }
+
+func judgeLifecycleOpts(prop string, withDisplaced bool) func(w *world) {
 	return func(w *world) {
 		if len(w.settles) == 0 {
 			return
@@ -501,49 +639,61 @@ func judgeLifecycle(prop string) func(w *world) {
 				}
 			}
 		}
-		// (c) quiescence: every listed subscription belongs to a listed session connected on the node it names
-		for ni, l := range final.Listings {
-			sessions := map[string]string{}
-			for _, x := range l {
-				f := strings.Split(x, "|")
-				if f[0] == "S" {
-					sessions[f[1]] = f[3]
-				}
-			}
-			for _, x := range l {
-				f := strings.Split(x, "|")
-				if f[0] != "U" {
-					continue
-				}
-				peer, ok := sessions[f[2]]
-				if !ok {
-					late := false
-					for _, n := range w.nodes {
-						if fmt.Sprint(n.id) == f[3] && w.anyLateGossip(n.idx) {
-							late = true
-						}
-					}
-					w.o.violate(prop, "orphan-subscription", len(w.c.Steps), endMs, map[string]string{"late_gossip": fmt.Sprint(late)}, "node %d lists subscription %s whose session is not listed", ni, x)
-					break
-				}
-				if peer != f[3] {
-					w.o.violate(prop, "subscription-wrong-peer", len(w.c.Steps), endMs, nil, "node %d lists subscription %s but the session is recorded on peer %s", ni, x, peer)
-					break
-				}
-				host := -1
-				for _, n := range w.nodes {
-					if fmt.Sprint(n.id) == f[3] {
-						host = n.idx
-					}
-				}
-				if host >= 0 && w.nodes[host].alive && w.nodes[host].local.Get(f[2]) == nil {
-					w.o.violate(prop, "subscription-of-unconnected-session", len(w.c.Steps), endMs, map[string]string{"late_gossip": fmt.Sprint(w.anyLateGossip(host))}, "node %d lists subscription %s but node %d has no such session in its registry", ni, x, host)
-					break
-				}
-			}
+		var exempt map[string]bool
+		if withDisplaced {
+			exempt = w.judgeDisplacedSessions(prop, all, final)
 		}
+		judgeQuiescence(w, prop, final, exempt)
 		w.o.Stats["sessions_judged"] += int64(judged)
 		w.o.Nontrivial = judged >= 2
+	}
+}
+
+
+// judgeQuiescence: (c) every listed subscription belongs to a listed session connected on the node
+// it names. exempt names sessions that are legitimately in transit at the end of the run (displaced
+// but not yet told so).
+func judgeQuiescence(w *world, prop string, final settleRec, exempt map[string]bool) {
+	endMs := w.nowMs()
+	for ni, l := range final.Listings {
+		sessions := map[string]string{}
+		for _, x := range l {
+			f := strings.Split(x, "|")
+			if f[0] == "S" {
+				sessions[f[1]] = f[3]
+			}
+		}
+		for _, x := range l {
+			f := strings.Split(x, "|")
+			if f[0] != "U" {
+				continue
+			}
+			peer, ok := sessions[f[2]]
+			if !ok {
+				late := false
+				for _, n := range w.nodes {
+					if fmt.Sprint(n.id) == f[3] && w.anyLateGossip(n.idx) {
+						late = true
+					}
+				}
+				w.o.violate(prop, "orphan-subscription", len(w.c.Steps), endMs, map[string]string{"late_gossip": fmt.Sprint(late)}, "node %d lists subscription %s whose session is not listed", ni, x)
+				break
+			}
+			if peer != f[3] {
+				w.o.violate(prop, "subscription-wrong-peer", len(w.c.Steps), endMs, nil, "node %d lists subscription %s but the session is recorded on peer %s", ni, x, peer)
+				break
+			}
+			host := -1
+			for _, n := range w.nodes {
+				if fmt.Sprint(n.id) == f[3] {
+					host = n.idx
+				}
+			}
+			if host >= 0 && w.nodes[host].alive && w.nodes[host].local.Get(f[2]) == nil {
+				w.o.violate(prop, "subscription-of-unconnected-session", len(w.c.Steps), endMs, map[string]string{"late_gossip": fmt.Sprint(w.anyLateGossip(host))}, "node %d lists subscription %s but node %d has no such session in its registry", ni, x, host)
+				break
+			}
+		}
 	}
 }
 
@@ -579,6 +729,10 @@ func firstGap(w *world, cl *simClient) int64 {
 }
 
 func init() {
+	register(&Check{ID: "C11", Variant: "displace", Level: "exploration", Build: "maporder", Gen: genC11Displace, Run: runC11Displace, QuickS: 15, ThoroughS: 240,
+		Rule:   "variant for the cause 'displaced by a newer session': chains of 2-3 connections sharing a client identifier over 1-3 nodes with gossip faults, the older ones subscribed; after an anti-entropy round every displaced session has a keep-alive exchange, then a second settle; a displaced session that has ended (closed by the broker, DISCONNECT or link loss) leaves no record or subscription anywhere and is written nothing more; quiescence invariant over the final listings",
+		Real:   e1Real, Stub: e1Stub,
+		Assume: []string{"a displaced session still connected at the end (its host never held the successor's record at one of its keep-alive exchanges) is not judged and its subscriptions are exempt from the quiescence invariant"}})
 	register(&Check{ID: "C11", Level: "exploration", Build: "maporder", Gen: genC11, Run: runC11, QuickS: 30, ThoroughS: 480,
 		Rule:   "a case = 1-3 nodes, a long-lived witness and 1-3 sessions with keep-alive 1/2/5/30 s running scripts of subscribe/publish/ping separated by idle periods of 0.5k or 0.9k (also right after CONNECT), ending by DISCONNECT, link cut, client close, silence > 2k, second CONNECT, hosting-node stop, or not at all; gossip drop/dup/delay until the settle; then traffic towards every session; non-trivial when >=2 sessions judged; distinct by hash of the scenario",
 		Real:   e1Real, Stub: e1Stub,
